@@ -65,7 +65,7 @@ def impl(case):
     curve = Curve(U, P)
     before = (tuple(curve.knotvector), tuple(map(tuple, curve.ctrlpoints)))
     x = [float(v) for v in nums(case["x"])]
-    r = capture(lambda: [out_num(t) for t in Projection.point_on_curve(x, curve)], seconds=20)
+    r = capture(lambda: [out_num(t) for t in Projection.point_on_curve(x, curve)], seconds=case.get("timeout", 20))
     same = before == (tuple(curve.knotvector), tuple(map(tuple, curve.ctrlpoints)))
     return {"r": r, "same": same}
 
